@@ -47,7 +47,7 @@ META = {
                   "callables, splat arguments and depth>5 are outside the box.",
 }
 
-FIELDS = ["key", "ast", "load", "k", "nvar", "lit", "hoist", "diff", "fold", "code", "vallit", "valhoist"]
+FIELDS = ["key", "ast", "load", "k", "nvar", "lit", "hoist", "diff", "fold", "code", "vallit", "valhoist", "cfg"]
 
 
 def classify(lit, other):
@@ -95,6 +95,18 @@ def stmt_head(src):
     return m.group(1) if m else "expr"
 
 
+def depth_of(src):
+    """nesting depth of brackets in an expression source (proxy for the generator's depth)"""
+    d = best = 0
+    for ch in src:
+        if ch in "([{":
+            d += 1
+            best = max(best, d)
+        elif ch in ")]}":
+            d -= 1
+    return best
+
+
 def src_of(key):
     try:
         return bytes.fromhex(key.split()[1]).decode()
@@ -111,7 +123,7 @@ def run(r):
               "co-singletons, random) beyond; a case is non-trivial when it has at least one literal leaf and an operator or statement")
     r.assumptions = ["context variables hold exactly the Value the front end builds for the literal (obtained by evaluating the literal alone)",
                      "the callee of a call does not depend on how its keyword arguments were built (the harness' callee returns them)",
-                     "expressions deeper than 5 / with filters, tests, attribute access, slices, if-expressions are outside the box"]
+                     "the preserve_order build is covered by the hoisting oracle only (the Lean map model is the sorted map)"]
     r.regen_tables(["C04_BINOP_KINDS", "C04_FOLD_BINOP", "C04_FOLD_COMPARE", "C04_FOLD_UNARY", "C04_CODEGEN_BINOP",
                     "C04_CODEGEN_COMPARE", "C04_VM_BINOP", "C04_TRAVERSAL"])
     r.lean_prove("MJ.Props.C04", "MJ/Audit/C04.lean", extra_targets=["drive_c04"])
@@ -122,6 +134,20 @@ def run(r):
     if rc != 0:
         r.broken.append(f"harness c04 exited {rc}: {err[-300:]}")
         return
+    process(r, out, "default", True)
+    # the same generator against a build with IndexMap-backed maps (insertion order is observable there);
+    # the Lean map model is the sorted one, so this stream is checked by the hoisting oracle only
+    exe_po = r.cargo_build("c04", features=["preserve_order"])
+    if exe_po is None:
+        return
+    rc, out, err = r.harness(exe_po, ["gen", r.tier, "small"])
+    if rc != 0:
+        r.broken.append(f"harness c04 (preserve_order) exited {rc}: {err[-300:]}")
+        return
+    process(r, out, "preserve_order", False)
+
+
+def process(r, out, build, with_model):
     lines = out.splitlines()
     cases = []
     for line in lines:
@@ -130,11 +156,13 @@ def run(r):
             r.broken.append(f"harness line with {len(f)} fields: {line[:200]}")
             continue
         cases.append(dict(zip(FIELDS, f)))
-    expr_idx = [i for i, c in enumerate(cases) if c["ast"] != "-"]
+    expr_idx = [i for i, c in enumerate(cases) if c["ast"] != "-" and "XS" not in c["ast"].split()] if with_model else []
     drv_in = "".join(cases[i]["key"].split()[0] + "\t" + cases[i]["ast"] + "\n" for i in expr_idx)
-    model_lines = r.driver("drive_c04", drv_in)
+    model_lines = r.driver("drive_c04", drv_in) if with_model else []
     model = None
-    if model_lines is None or len(model_lines) != len(expr_idx):
+    if not with_model:
+        pass
+    elif model_lines is None or len(model_lines) != len(expr_idx):
         r.broken.append("model driver output does not line up with the harness cases")
     else:
         model = dict(zip(expr_idx, model_lines))
@@ -145,8 +173,11 @@ def run(r):
         k, nvar = int(c["k"]), int(c["nvar"])
         stmt = ast == "-"
         ops = [] if stmt else ops_in(ast)
-        r.count(key, k >= 1 and (stmt or len(ops) >= 1), n=max(nvar, 1))
-        r.hist["stream"]["statement" if stmt else "expression"] += 1
+        r.count(build + " " + key, k >= 1 and (stmt or len(ops) >= 1), n=max(nvar, 1))
+        r.hist["stream"][("statement" if stmt else "expression") + "/" + build] += 1
+        r.hist["configuration"][c["cfg"]] += 1
+        if not stmt:
+            r.hist["depth"][str(depth_of(src_of(key)))] += 1
         r.hist["mode"][key.split()[0]] += 1
         r.hist["root"][stmt_head(src_of(key)) if stmt else root_of(ast)] += 1
         for o in set(ops):
@@ -161,6 +192,8 @@ def run(r):
         if c["diff"] != "-":
             first = c["diff"].split(";")[0]
             mask, other = first.split("=", 1)
+            mask = mask.replace("@", " rendered through ")
+            where = where + ("" if build == "default" else ":" + build)
             la, oa = c["lit"].split("|"), other.split("|")
             if stmt and len(la) == len(oa) and len(la) > 1:
                 # template observation = own rendering | block table | render_block(..) | exports | consumers
@@ -178,7 +211,12 @@ def run(r):
         if "panic" in (c["lit"], c["hoist"], c["vallit"], c["valhoist"], c["code"]):
             r.hist["outcome"]["panic"] += 1
         # ---- tie: parser guarantees the model's well-formedness assumptions; real folder vs real code generator
-        if stmt:
+        if stmt or not with_model:
+            continue
+        if "XS" in ast.split():
+            unmodelled += 1
+            r.hist["model"]["unmodelled primitive"] += 1
+            r.hist["unmodelled"]["splat arguments"] += 1
             continue
         if " X" in " " + ast:
             r.broken.append(f"harness AST dump met a node outside the fragment: {src_of(key)}")
@@ -221,10 +259,12 @@ def run(r):
         if i % max(1, len(cases) // 10) == 0:
             r.sample({"src": src_of(key), "mode": key.split()[0], "leaves": k, "variants": nvar, "outcome": c["lit"][:60],
                       "as_const": fold_impl[:60], "model": d["fold"][:60]})
-    r.extra["unmodelled_cases"] = unmodelled
-    r.extra["cases"] = len(cases)
-    r.extra["expression_cases"] = len(expr_idx)
-    r.extra["unmodelled_fraction_of_expression_cases"] = round(unmodelled / max(1, len(expr_idx)), 4)
+    r.extra["cases/" + build] = len(cases)
+    if with_model:
+        nexpr = sum(1 for c in cases if c["ast"] != "-")
+        r.extra["unmodelled_cases"] = unmodelled
+        r.extra["expression_cases"] = nexpr
+        r.extra["unmodelled_fraction_of_expression_cases"] = round(unmodelled / max(1, nexpr), 4)
 
 
 def replay(r, path):
